@@ -1,0 +1,312 @@
+//! Verification hooks (only compiled with `--cfg image_webp_verif`).
+//!
+//! Thin wrappers that expose crate-private functions to the external
+//! verification harness. Nothing here changes behaviour; no existing item is
+//! modified. With the cfg flag off this module does not exist.
+#![allow(missing_docs, clippy::too_many_arguments)]
+
+use std::io::BufRead;
+
+use crate::decoder::DecodingError;
+use crate::extended::FilteringMethod;
+use crate::huffman::HuffmanTree;
+use crate::lossless::{BitReader, LosslessDecoder};
+use crate::vp8_arithmetic_decoder::ArithmeticDecoder;
+
+/// `alpha_blending::do_alpha_blending`
+pub fn blend(src: [u8; 4], dst: [u8; 4]) -> [u8; 4] {
+    crate::alpha_blending::do_alpha_blending(src, dst)
+}
+
+/// `extended::composite_frame`
+pub fn composite(
+    canvas: &mut [u8],
+    canvas_width: u32,
+    canvas_height: u32,
+    clear_color: Option<[u8; 4]>,
+    frame: &[u8],
+    frame_offset_x: u32,
+    frame_offset_y: u32,
+    frame_width: u32,
+    frame_height: u32,
+    frame_has_alpha: bool,
+    frame_use_alpha_blending: bool,
+    previous_frame_width: u32,
+    previous_frame_height: u32,
+    previous_frame_offset_x: u32,
+    previous_frame_offset_y: u32,
+) {
+    crate::extended::composite_frame(
+        canvas,
+        canvas_width,
+        canvas_height,
+        clear_color,
+        frame,
+        frame_offset_x,
+        frame_offset_y,
+        frame_width,
+        frame_height,
+        frame_has_alpha,
+        frame_use_alpha_blending,
+        previous_frame_width,
+        previous_frame_height,
+        previous_frame_offset_x,
+        previous_frame_offset_y,
+    );
+}
+
+fn filtering_method(filter: u8) -> FilteringMethod {
+    match filter & 3 {
+        0 => FilteringMethod::None,
+        1 => FilteringMethod::Horizontal,
+        2 => FilteringMethod::Vertical,
+        _ => FilteringMethod::Gradient,
+    }
+}
+
+/// `extended::get_alpha_predictor`
+pub fn alpha_predictor(x: usize, y: usize, width: usize, filter: u8, rgba: &[u8]) -> u8 {
+    crate::extended::get_alpha_predictor(x, y, width, filtering_method(filter), rgba)
+}
+
+/// `extended::read_alpha_chunk`: returns (filtering method as 0..3, data).
+pub fn read_alph(bytes: &[u8], width: u16, height: u16) -> Result<(u8, Vec<u8>), DecodingError> {
+    let mut r = std::io::Cursor::new(bytes);
+    let chunk = crate::extended::read_alpha_chunk(&mut r, width, height)?;
+    let f = match chunk.filtering_method {
+        FilteringMethod::None => 0,
+        FilteringMethod::Horizontal => 1,
+        FilteringMethod::Vertical => 2,
+        FilteringMethod::Gradient => 3,
+    };
+    Ok((f, chunk.data))
+}
+
+/// `Frame::fill_rgb` / `Frame::fill_rgba` on a frame assembled from planes.
+pub fn frame_fill(
+    width: u16,
+    height: u16,
+    ybuf: Vec<u8>,
+    ubuf: Vec<u8>,
+    vbuf: Vec<u8>,
+    rgba: bool,
+    buf: &mut [u8],
+) {
+    let frame = crate::vp8::verif_frame(width, height, ybuf, ubuf, vbuf);
+    if rgba {
+        frame.fill_rgba(buf);
+    } else {
+        frame.fill_rgb(buf);
+    }
+}
+
+/// The boolean entropy decoder of VP8.
+pub struct Arith(ArithmeticDecoder);
+
+impl Arith {
+    pub fn new(data: &[u8]) -> Result<Self, DecodingError> {
+        let mut d = ArithmeticDecoder::new();
+        let mut buf = vec![[0u8; 4]; data.len().div_ceil(4)];
+        buf.as_mut_slice().as_flattened_mut()[..data.len()].copy_from_slice(data);
+        d.init(buf, data.len())?;
+        Ok(Self(d))
+    }
+    pub fn uninit() -> Self {
+        Self(ArithmeticDecoder::new())
+    }
+    pub fn read_bool(&mut self, p: u8) -> bool {
+        let mut acc = self.0.start_accumulated_result();
+        let v = self.0.read_bool(p).or_accumulate(&mut acc);
+        let _ = self.0.check(acc, ());
+        v
+    }
+    pub fn read_flag(&mut self) -> bool {
+        let mut acc = self.0.start_accumulated_result();
+        let v = self.0.read_flag().or_accumulate(&mut acc);
+        let _ = self.0.check(acc, ());
+        v
+    }
+    pub fn read_literal(&mut self, n: u8) -> u8 {
+        let mut acc = self.0.start_accumulated_result();
+        let v = self.0.read_literal(n).or_accumulate(&mut acc);
+        let _ = self.0.check(acc, ());
+        v
+    }
+    pub fn read_optional_signed_value(&mut self, n: u8) -> i32 {
+        let mut acc = self.0.start_accumulated_result();
+        let v = self.0.read_optional_signed_value(n).or_accumulate(&mut acc);
+        let _ = self.0.check(acc, ());
+        v
+    }
+    /// Reads with one of the crate's own trees: 0 = key-frame luma mode tree,
+    /// 1 = key-frame chroma mode tree, 2 = segment id tree (probabilities 255),
+    /// 3 = sub-block mode tree in context (0,0).
+    pub fn read_tree(&mut self, which: u8) -> i8 {
+        let mut acc = self.0.start_accumulated_result();
+        let v = crate::vp8::verif_read_tree(&mut self.0, which).or_accumulate(&mut acc);
+        let _ = self.0.check(acc, ());
+        v
+    }
+    /// true iff `check` reports an error now (reads went past the end).
+    pub fn past_eof(&mut self) -> bool {
+        let acc = self.0.start_accumulated_result();
+        self.0.check(acc, ()).is_err()
+    }
+}
+
+/// `encoder::build_huffman_tree`
+pub fn enc_build_huffman(frequencies: &[u32], limit: u8) -> (bool, Vec<u8>, Vec<u16>) {
+    crate::encoder::verif_build_huffman(frequencies, limit)
+}
+
+/// `encoder::encode_frame` (the VP8L payload only)
+pub fn enc_frame(
+    data: &[u8],
+    width: u32,
+    height: u32,
+    color: crate::ColorType,
+    use_predictor_transform: bool,
+) -> Result<Vec<u8>, crate::EncodingError> {
+    crate::encoder::verif_encode_frame(data, width, height, color, use_predictor_transform)
+}
+
+/// `encoder::length_to_symbol`
+pub fn enc_length_to_symbol(len: u16) -> (u16, u8) {
+    crate::encoder::verif_length_to_symbol(len)
+}
+
+/// Result of building a decoder-side prefix code.
+pub struct Huff(HuffmanTree);
+
+impl Huff {
+    pub fn build_implicit(lengths: Vec<u16>) -> Result<Self, DecodingError> {
+        HuffmanTree::build_implicit(lengths).map(Self)
+    }
+    pub fn build_single(symbol: u16) -> Self {
+        Self(HuffmanTree::build_single_node(symbol))
+    }
+    pub fn build_two(zero: u16, one: u16) -> Self {
+        Self(HuffmanTree::build_two_node(zero, one))
+    }
+    pub fn is_single(&self) -> bool {
+        self.0.is_single_node()
+    }
+    /// Reads up to `n` symbols from `bytes` (calling `fill` before each one, as the
+    /// callers in lossless.rs do); stops at the first error.
+    pub fn read_symbols(&self, bytes: &[u8], n: usize) -> (Vec<u16>, Option<DecodingError>) {
+        let mut br = BitReader::verif_new(std::io::Cursor::new(bytes));
+        let mut out = Vec::new();
+        for _ in 0..n {
+            if let Err(e) = br.fill() {
+                return (out, Some(e));
+            }
+            match self.0.read_symbol(&mut br) {
+                Ok(s) => out.push(s),
+                Err(e) => return (out, Some(e)),
+            }
+        }
+        (out, None)
+    }
+}
+
+/// One request to the lossless bit reader.
+#[derive(Clone, Copy, Debug)]
+pub enum BitOp {
+    /// `read_bits::<u32>(n)`, n <= 32
+    Read(u8),
+    /// `fill()`
+    Fill,
+    /// `peek(n)` then `consume(n)`
+    PeekConsume(u8),
+    /// `peek_full() as u16`
+    PeekFull,
+}
+
+/// Runs a script of requests against `lossless::BitReader` over any `BufRead`.
+/// Output per op: `Ok(value)` or `Err(())` for a `DecodingError` (the run stops there).
+pub fn bitreader_script<R: BufRead>(reader: R, ops: &[BitOp]) -> Vec<Result<u64, String>> {
+    let mut br = BitReader::verif_new(reader);
+    let mut out = Vec::new();
+    for op in ops {
+        let r = match *op {
+            BitOp::Read(n) => br.read_bits::<u32>(n).map(u64::from),
+            BitOp::Fill => br.fill().map(|()| 0),
+            BitOp::PeekConsume(n) => {
+                let v = br.peek(n);
+                br.consume(n).map(|()| v)
+            }
+            BitOp::PeekFull => Ok(u64::from(br.peek_full() as u16)),
+        };
+        match r {
+            Ok(v) => out.push(Ok(v)),
+            Err(e) => {
+                out.push(Err(format!("{e:?}")));
+                break;
+            }
+        }
+    }
+    out
+}
+
+/// `LosslessDecoder::decode_frame` over any `BufRead`.
+pub fn vp8l_decode<R: BufRead>(
+    reader: R,
+    width: u32,
+    height: u32,
+    implicit_dimensions: bool,
+    buf: &mut [u8],
+) -> Result<(), DecodingError> {
+    LosslessDecoder::new(reader).decode_frame(width, height, implicit_dimensions, buf)
+}
+
+/// Inverse transforms of lossless_transform.rs.
+pub fn inv_predictor(
+    image: &mut [u8],
+    width: u16,
+    height: u16,
+    size_bits: u8,
+    predictor_data: &[u8],
+) -> Result<(), DecodingError> {
+    crate::lossless_transform::apply_predictor_transform(
+        image,
+        width,
+        height,
+        size_bits,
+        predictor_data,
+    )
+}
+pub fn inv_color(image: &mut [u8], width: u16, size_bits: u8, transform_data: &[u8]) {
+    crate::lossless_transform::apply_color_transform(image, width, size_bits, transform_data);
+}
+pub fn inv_subgreen(image: &mut [u8]) {
+    crate::lossless_transform::apply_subtract_green_transform(image);
+}
+pub fn inv_index(image: &mut [u8], width: u16, height: u16, table_size: u16, table: &[u8]) {
+    crate::lossless_transform::apply_color_indexing_transform(
+        image, width, height, table_size, table,
+    );
+}
+
+/// VP8 kernels.
+pub fn idct4x4(block: &mut [i32]) {
+    crate::transform::idct4x4(block);
+}
+pub fn iwht4x4(block: &mut [i32]) {
+    crate::transform::iwht4x4(block);
+}
+pub fn lf_simple(edge_limit: u8, pixels: &mut [u8], point: usize, stride: usize) {
+    crate::loop_filter::simple_segment(edge_limit, pixels, point, stride);
+}
+pub fn lf_subblock(hev: u8, interior: u8, edge: u8, pixels: &mut [u8], point: usize, stride: usize) {
+    crate::loop_filter::subblock_filter(hev, interior, edge, pixels, point, stride);
+}
+pub fn lf_macroblock(
+    hev: u8,
+    interior: u8,
+    edge: u8,
+    pixels: &mut [u8],
+    point: usize,
+    stride: usize,
+) {
+    crate::loop_filter::macroblock_filter(hev, interior, edge, pixels, point, stride);
+}
